@@ -6,6 +6,12 @@ import TsV.Model.Unicode
 namespace TsV.Rename
 open TsV Str
 
+/-- `is_all_uppercase` (since the `fix:` commit 8f4a2d5): "all uppercase, such as URL or TOTP" = no
+lowercase letter of any script, `!name.chars().any(char::is_lowercase)`.  Before it the test was
+`self.to_ascii_uppercase() == *self` (`toAsciiUpper s == s`), true of every name without an *ASCII*
+lowercase letter: `ΑλφαΒήτα` was "all uppercase". -/
+def isAllUpper (U : UnicodeOps) (s : Str) : Bool := !(s.any U.isLower)
+
 /-- loop body of `to_pascal_case`: state = capitalize flag -/
 def pascalGo (toLower : Bool) : Bool → Str → Str
   | _, [] => []
@@ -15,7 +21,7 @@ def pascalGo (toLower : Bool) : Bool → Str → Str
     else (if toLower then asciiLower ch else ch) :: pascalGo toLower false rest
 
 /-- `RenameExt::to_pascal_case` -/
-def toPascal (s : Str) : Str := pascalGo (toAsciiUpper s == s) true s
+def toPascal (U : UnicodeOps) (s : Str) : Str := pascalGo (isAllUpper U s) true s
 
 /-- `first.to_ascii_lowercase().to_string() + chars.as_str()`, the empty string unchanged
 (since the `fix:` commit 0ee22df; before it the code byte-sliced `pascal[..1]` and panicked on an
@@ -25,7 +31,7 @@ def lowerFirst : Str → Str
   | c :: rest => asciiLower c :: rest
 
 /-- `RenameExt::to_camel_case` -/
-def toCamel (s : Str) : Str := lowerFirst (toPascal s)
+def toCamel (U : UnicodeOps) (s : Str) : Str := lowerFirst (toPascal U s)
 
 /-- loop body of `to_snake_case`; `first` = `i == 0` -/
 def snakeGo (U : UnicodeOps) (allUpper : Bool) : Bool → Str → Str
@@ -35,7 +41,7 @@ def snakeGo (U : UnicodeOps) (allUpper : Bool) : Bool → Str → Str
       asciiLower ch :: snakeGo U allUpper false rest
 
 /-- `RenameExt::to_snake_case` -/
-def toSnake (U : UnicodeOps) (s : Str) : Str := snakeGo U (toAsciiUpper s == s) true s
+def toSnake (U : UnicodeOps) (s : Str) : Str := snakeGo U (isAllUpper U s) true s
 
 def toScreamingSnake (U : UnicodeOps) (s : Str) : Str := toAsciiUpper (toSnake U s)
 def toKebab (U : UnicodeOps) (s : Str) : Str := replaceChar (toSnake U s) '_' ['-']
@@ -50,8 +56,8 @@ def renameAllToCase (U : UnicodeOps) (original : Str) (rule : Option Str) : Outc
   | some v =>
     if v = s%"lowercase" then .ok (toAsciiLower original)
     else if v = s%"UPPERCASE" then .ok (toAsciiUpper original)
-    else if v = s%"PascalCase" then .ok (toPascal original)
-    else if v = s%"camelCase" then .ok (toCamel original)
+    else if v = s%"PascalCase" then .ok (toPascal U original)
+    else if v = s%"camelCase" then .ok (toCamel U original)
     else if v = s%"snake_case" then .ok (toSnake U original)
     else if v = s%"SCREAMING_SNAKE_CASE" then .ok (toScreamingSnake U original)
     else if v = s%"kebab-case" then .ok (toKebab U original)
